@@ -62,6 +62,10 @@ PathTools  == ConfigReadTools \cup ConfigLifecycleTools
 PidTools   == RuntimeFlagTools
 \* "Mutation tools use strict argument allowlists: unknown top-level arguments are rejected"
 StrictTools == MutationFlagTools
+\* "When compiled queue_backend is memory or postgres, MCP queue tools proxy the configured Admin API endpoints"
+QueueReadTools  == {"backlog_top_queued", "backlog_oldest_queued", "backlog_aging_summary", "backlog_trends",
+                    "messages_list", "attempts_list", "dlq_list"}
+ProxyTools      == QueueMutationTools \cup QueueReadTools
 
 RequiredRole(t) == IF t \in ReadTools THEN "read" ELSE IF t \in OperateTools THEN "operate" ELSE "admin"
 
@@ -106,6 +110,9 @@ DenyReasons(t, role, mut, rc, principal, actor) ==
 (*   extra     : an undocumented top-level key is present                  *)
 (*   actor     : the actor actually sent, relative to the principal        *)
 (*   mode      : write mode asked of a config-writing tool                 *)
+(*   backend   : "sqlite" (queue tools act on the local database) | "proxy" *)
+(*               (queue backend memory: queue tools forward to the Admin   *)
+(*               API, so an effect on the queue is a forwarded request)    *)
 (*   wire      : "object" | "absent" (no arguments member) | "nonobject"   *)
 (*               (arguments is not a JSON object: a malformed request)     *)
 (*   valid     : the arguments are the valid minimal ones, so a call that  *)
@@ -121,13 +128,14 @@ BaseLab(t, actor) ==
    actor |-> EffActor(t, actor),
    mode  |-> IF t = "config_apply" THEN "write_only" ELSE IF t \in ConfigLifecycleTools THEN "default" ELSE "none",
    wire  |-> "object",
+   backend |-> "sqlite",
    valid |-> TRUE]
 
 \* no arguments at all: every documented default applies
 NoArgsLab(t, w) ==
   [path |-> "none", pid |-> "none", extra |-> FALSE, actor |-> "absent",
    mode |-> IF t = "config_apply" THEN "preview_only" ELSE IF t \in ConfigLifecycleTools THEN "default" ELSE "none",
-   wire |-> w, valid |-> FALSE]
+   wire |-> w, backend |-> "sqlite", valid |-> FALSE]
 
 PathShapes  == {"path_absent", "path_foreign", "path_dotdot_foreign", "path_symlink_foreign", "path_dirlink_dotdot",
                 "path_relative", "path_alias_dotdot", "path_alias_symlink", "path_badtype"}
@@ -139,13 +147,16 @@ ApplyShapes == {"content_noparse_preview", "content_noparse_write", "content_nop
                 "content_badtype", "mode_bogus"}
 UpsertShapes == {"mode_preview", "mode_reload_up", "mode_reload_down"}
 WireShapes  == {"args_absent", "args_nonobject"}
-Shapes == {"minimal", "extra_key", "wrongtype"} \cup WireShapes \cup PathShapes \cup PidShapes \cup ActorShapes \cup ApplyShapes \cup UpsertShapes
+ProxyShapes == {"proxy_minimal", "proxy_actor"}
+Shapes == {"minimal", "extra_key", "wrongtype"} \cup WireShapes \cup ProxyShapes \cup PathShapes \cup PidShapes \cup ActorShapes \cup ApplyShapes \cup UpsertShapes
 
 ShapeApplies(t, s) ==
   CASE s = "minimal"       -> TRUE
     [] s = "extra_key"     -> t \in AllTools
     [] s = "wrongtype"     -> t \in MutatingTools
     [] s \in WireShapes   -> t \in AllTools
+    [] s = "proxy_minimal" -> t \in ProxyTools
+    [] s = "proxy_actor"   -> t \in QueueMutationTools
     [] s \in PathShapes    -> t \in PathTools
     [] s \in PidShapes     -> t \in PidTools
     [] s \in ActorShapes   -> t \in ActorTools
@@ -160,6 +171,8 @@ ShapeLab(t, actor, s) ==
     [] s = "wrongtype"    -> [b EXCEPT !.valid = FALSE, !.mode = IF t = "config_apply" THEN "other" ELSE b.mode]
     [] s = "args_absent"    -> NoArgsLab(t, "absent")
     [] s = "args_nonobject" -> NoArgsLab(t, "nonobject")
+    [] s = "proxy_minimal"  -> [b EXCEPT !.backend = "proxy"]
+    [] s = "proxy_actor"    -> [b EXCEPT !.backend = "proxy", !.actor = "different", !.valid = FALSE]
     [] s = "path_absent"  -> [b EXCEPT !.path = "none"]
     [] s \in {"path_foreign", "path_dotdot_foreign", "path_symlink_foreign", "path_dirlink_dotdot", "path_relative"}
                           -> [b EXCEPT !.path = "foreign", !.valid = FALSE]
